@@ -1,9 +1,12 @@
 /-
   C03 — Swaps follow the documented formula, honour slippage bounds, conserve tokens.
-  `Out` of `swapIn` = (out, 0, 0); of `swapOut` = (out delivered, charged, refund).
-  `balIn/balOut d` are the pair's REAL balances of the input / output token of direction `d`.
+  `Out` of `swapIn` = (out, 0, 0); of `swapOut` = (out delivered, charged, refund); `Out.locked`
+  says whether the `out` units reached the caller as LOCKED tokens minted by simple-lock
+  (`lockedAmt = out, plainAmt = 0`) or as the plain token (`plainAmt = out, lockedAmt = 0`).
+  `balIn/balOut d` are the pair's REAL balances of the input / output token of direction `d`,
+  `slkIn/slkOut d` those of the simple-lock contract.
 -/
-import MxModel.Lemmas.PairK
+import MxModel.Lemmas.PairLock
 
 namespace Mx.C03
 open Mx.Pair
@@ -120,17 +123,168 @@ theorem fee_switch_off {s s' : St} {d : Dir} {a minOut : Nat} {o : Out}
   simp only [Option.some.injEq] at h3
   subst h3
   refine ⟨hz, ?_⟩
-  cases d <;> simp [swapMid, St.touch, St.setR, St.setBal, St.rin, St.rout, St.balIn, St.balOut]
+  cases d <;>
+    simp [swapMid, St.touch, St.setR, St.setBal, St.addSlkOut, St.rin, St.rout, St.balIn, St.balOut]
 
 /-- the special fee is only taken when the switch is on, and then equals `⌊a·special/M⌋` -/
 theorem special_fee_formula (s : St) (a : Nat) :
     swapFee s a = if s.feeOn then a * s.special / M else 0 := rfl
+
+/-! ### output locking (`locking_wrapper.rs`, `build_swap_output_payments`) -/
+
+/-- what `Out.locked` decides: all of `v1` is LOCKED or all of it is plain — never both, never neither -/
+theorem out_locked_xor_plain (o : Out) :
+    o.plainAmt + o.lockedAmt = o.v1 ∧
+    (o.locked = true → o.lockedAmt = o.v1 ∧ o.plainAmt = 0) ∧
+    (o.locked = false → o.plainAmt = o.v1 ∧ o.lockedAmt = 0) := by
+  cases hl : o.locked <;> simp [Out.plainAmt, Out.lockedAmt, hl]
+
+/-- fixed input: the caller is credited exactly `out = ⌊a(M−f)rOut/(rIn·M + a(M−f))⌋ > 0` of the
+    output token and nothing else (no refund, nothing of the input token); as LOCKED tokens iff
+    `epoch < lockingDeadlineEpoch` and the unlock epoch is still ahead, as the plain token
+    otherwise; and while locking is on the swap only succeeds through simple-lock -/
+theorem swapIn_locked_or_plain {s s' : St} {d : Dir} {a minOut : Nat} {o : Out}
+    (h : swapIn s d a minOut = some (s', o)) :
+    o.v1 = amountOut s.total a (s.rin d) (s.rout d) ∧ 0 < o.v1 ∧ o.v2 = 0 ∧ o.v3 = 0 ∧
+    (o.locked = true ↔ s.epoch < s.lockDeadline ∧ s.epoch < s.lockUnlockEpoch) ∧
+    o.plainAmt + o.lockedAmt = o.v1 ∧
+    (s.epoch < s.lockDeadline → s.lockSc = .simpleLock) := by
+  obtain ⟨hsc, _, _⟩ := swapIn_lock_spec h
+  obtain ⟨_, _, _, _, _, _, rfl, _, _, h8, _⟩ := swapIn_spec h
+  refine ⟨rfl, Nat.pos_of_ne_zero h8, rfl, rfl, ?_, (out_locked_xor_plain _).1, ?_⟩
+  · simp [St.locksOut, St.lockOn]
+  · intro hd; exact hsc (by simp [St.lockOn, hd])
+
+/-- fixed output: the caller is credited exactly the requested `out` of the output token (plus
+    the refund `maxIn − charged` of the INPUT token, always plain); `out` comes as LOCKED tokens
+    iff `epoch < lockingDeadlineEpoch` and the unlock epoch is still ahead, as the plain token
+    otherwise; and while locking is on the swap only succeeds through simple-lock -/
+theorem swapOut_locked_or_plain {s s' : St} {d : Dir} {maxIn out : Nat} {o : Out}
+    (h : swapOut s d maxIn out = some (s', o)) :
+    o.v1 = out ∧ 0 < o.v1 ∧ o.v3 = maxIn - o.v2 ∧
+    (o.locked = true ↔ s.epoch < s.lockDeadline ∧ s.epoch < s.lockUnlockEpoch) ∧
+    o.plainAmt + o.lockedAmt = o.v1 ∧
+    (s.epoch < s.lockDeadline → s.lockSc = .simpleLock) := by
+  obtain ⟨hsc, _, _⟩ := swapOut_lock_spec h
+  obtain ⟨_, _, h1, _, _, _, _, rfl, _⟩ := swapOut_spec h
+  refine ⟨rfl, h1, rfl, ?_, (out_locked_xor_plain _).1, ?_⟩
+  · simp [St.locksOut, St.lockOn]
+  · intro hd; exact hsc (by simp [St.lockOn, hd])
+
+/-- either swap endpoint, as a step of the state machine: the caller is credited exactly
+    `o.v1 > 0` of the output token — all of it LOCKED (`lockedAmt = v1`, `plainAmt = 0`) iff
+    `epoch < lockingDeadlineEpoch` and the unlock epoch is still ahead, all of it plain
+    (`plainAmt = v1`, `lockedAmt = 0`) otherwise: never both, never neither -/
+theorem swap_output_locked_or_plain {s s' : St} {op : Op} {o : Out} (hsw : isSwap op = true)
+    (h : step s op = some (s', o)) :
+    0 < o.v1 ∧
+    (o.locked = true ↔ s.epoch < s.lockDeadline ∧ s.epoch < s.lockUnlockEpoch) ∧
+    (s.epoch < s.lockDeadline ∧ s.epoch < s.lockUnlockEpoch → o.lockedAmt = o.v1 ∧ o.plainAmt = 0) ∧
+    (¬(s.epoch < s.lockDeadline ∧ s.epoch < s.lockUnlockEpoch) → o.plainAmt = o.v1 ∧ o.lockedAmt = 0) ∧
+    (s.epoch < s.lockDeadline → s.lockSc = .simpleLock) := by
+  have hx := out_locked_xor_plain o
+  have key : 0 < o.v1 ∧ (o.locked = true ↔ s.epoch < s.lockDeadline ∧ s.epoch < s.lockUnlockEpoch) ∧
+      (s.epoch < s.lockDeadline → s.lockSc = .simpleLock) := by
+    cases op <;> simp only [isSwap] at hsw <;> try contradiction
+    case swapIn d a m =>
+      simp only [step] at h
+      obtain ⟨_, h2, _, _, h5, _, h7⟩ := swapIn_locked_or_plain h
+      exact ⟨h2, h5, h7⟩
+    case swapOut d mx out =>
+      simp only [step] at h
+      obtain ⟨_, h2, _, h4, _, h6⟩ := swapOut_locked_or_plain h
+      exact ⟨h2, h4, h6⟩
+  obtain ⟨k1, k2, k3⟩ := key
+  refine ⟨k1, k2, fun hc => hx.2.1 (k2.2 hc), fun hc => hx.2.2 ?_, k3⟩
+  cases hl : o.locked
+  · rfl
+  · exact absurd (k2.1 hl) hc
+
+/-- conservation of the output token across the pair, simple-lock and the caller (either swap
+    endpoint; `d` = the swap's direction): simple-lock's holdings of the output token grow by
+    exactly the LOCKED amount delivered and its holdings of the input token do not move;
+    exactly what leaves the reserve leaves the pair; and everything that left the pair went to
+    the caller as plain tokens, to simple-lock (backing the caller's LOCKED tokens 1:1), or was
+    bought and routed away by a local fee swap (`rout` decrease beyond `out`) — nothing is created -/
+theorem swap_lock_conservation {s s' : St} {op : Op} {o : Out} (hsw : isSwap op = true)
+    (h : step s op = some (s', o)) :
+    s'.slkOut (swapDir op) = s.slkOut (swapDir op) + o.lockedAmt ∧
+    s'.slkIn (swapDir op) = s.slkIn (swapDir op) ∧
+    s'.balOut (swapDir op) + (s.rout (swapDir op) - s'.rout (swapDir op)) = s.balOut (swapDir op) ∧
+    s'.rout (swapDir op) + o.v1 ≤ s.rout (swapDir op) ∧
+    s.balOut (swapDir op) + s.slkOut (swapDir op) =
+      s'.balOut (swapDir op) + s'.slkOut (swapDir op) + o.plainAmt +
+        (s.rout (swapDir op) - s'.rout (swapDir op) - o.v1) := by
+  have hx := (out_locked_xor_plain o).1
+  cases op <;> simp only [isSwap] at hsw <;> try contradiction
+  case swapIn d a m =>
+    simp only [step] at h
+    obtain ⟨_, l2, l3⟩ := swapIn_lock_spec h
+    obtain ⟨_, _, _, _, _, c6, c7⟩ := swapIn_conservation h
+    simp only [swapDir]
+    refine ⟨l2, l3, c6, c7, ?_⟩
+    omega
+  case swapOut d mx out =>
+    simp only [step] at h
+    obtain ⟨_, l2, l3⟩ := swapOut_lock_spec h
+    obtain ⟨e1, _⟩ := swapOut_exact h
+    obtain ⟨_, _, _, _, _, c6, c7⟩ := swapOut_conservation h
+    simp only [swapDir]
+    refine ⟨l2, l3, c6, by omega, ?_⟩
+    omega
+
+/-- with the fee switch off the pair's output balance drops by exactly `out`: all of it is in
+    the caller's hands as plain tokens, or in simple-lock's as the backing of the caller's LOCKED tokens -/
+theorem fee_off_output_exact {s s' : St} {d : Dir} {a minOut : Nat} {o : Out}
+    (hoff : s.feeOn = false) (h : swapIn s d a minOut = some (s', o)) :
+    s'.balOut d + o.v1 = s.balOut d ∧ s'.slkOut d = s.slkOut d + o.lockedAmt ∧
+    s.balOut d + s.slkOut d = s'.balOut d + s'.slkOut d + o.plainAmt := by
+  obtain ⟨_, _, _, _, h5⟩ := fee_switch_off hoff h
+  obtain ⟨_, l2, _⟩ := swapIn_lock_spec h
+  obtain ⟨_, _, _, _, _, c6, c7⟩ := swapIn_conservation h
+  have hx := (out_locked_xor_plain o).1
+  refine ⟨by omega, l2, by omega⟩
+
+/-- over any history from a fresh pair: simple-lock's holdings of each pool token equal the sum
+    of the LOCKED amounts the pair's swaps delivered to their callers (every LOCKED token handed
+    out is backed 1:1, and nothing else ever reaches or leaves simple-lock through the pair) -/
+theorem locked_backed_run (total special : Nat) (adder : Option Nat) (cap : Nat) (ops : List Op) :
+    let r := runLocked (init total special adder cap) ops
+    r.1 = run (init total special adder cap) ops ∧ r.1.slk1 = r.2.1 ∧ r.1.slk2 = r.2.2 := by
+  intro r
+  have h1 := runLocked_fst (init total special adder cap) ops
+  have h2 := run_slk ops (init total special adder cap)
+  have z1 : (init total special adder cap).slk1 = 0 := rfl
+  have z2 : (init total special adder cap).slk2 = 0 := rfl
+  refine ⟨h1, ?_, ?_⟩
+  · show (runLocked _ ops).1.slk1 = (runLocked _ ops).2.1
+    rw [h1, h2.1, z1, Nat.zero_add]
+  · show (runLocked _ ops).1.slk2 = (runLocked _ ops).2.2
+    rw [h1, h2.2, z2, Nat.zero_add]
+
+/-- the locking setters are owner-only: a caller without owner permissions cannot change them -/
+theorem lock_setters_owner_only (s : St) (o : LockOp) : step s (.lock false o) = none := by
+  cases o <;> simp [step, lockCfg, req]
 
 /-- non-vacuity: a fee-charging swap in each mode on a concrete pool -/
 example :
     let s0 := run (init 300 50 none 8)
       [.cfg (.setState .active), .addLiq 1000000 2000000 1 1, .cfg (.addDest .second)]
     (swapIn s0 .ab 100000 1).isSome ∧ (swapOut s0 .ba 90000 4000).isSome ∧ s0.feeOn = true := by
+  decide
+
+/-- non-vacuity of the locking theorems: before the deadline the output is LOCKED and backed,
+    after the unlock epoch (still before the deadline) it is plain, after the deadline it is
+    plain; with the locking address unset a swap fails while locking is on -/
+example :
+    let s0 := run (init 300 50 none 8)
+      [.cfg (.setState .active), .addLiq 1000000 2000000 1 1, .lock true (.setDeadline 5),
+       .lock true (.setUnlock 3)]
+    let s1 := run s0 [.lock true (.setSc .simpleLock)]
+    swapIn s0 .ab 1000 1 = none ∧
+    ((swapIn s1 .ab 1000 1).map fun r => (r.2.v1, r.2.locked, r.1.slk2)) = some (1992, true, 1992) ∧
+    ((swapOut (run s1 [.epoch 3]) .ba 90000 500).map fun r => (r.2.locked, r.1.slk1)) = some (false, 0) ∧
+    ((swapIn (run s1 [.epoch 5]) .ab 1000 1).map fun r => r.2.locked) = some false := by
   decide
 
 end Mx.C03
